@@ -312,7 +312,8 @@ const waitS = 2 * time.Second
 type SeqReqIn struct {
 	H0     [][]any `json:"h0"`
 	Script [][]any `json:"script"`
-	Fl     bool    `json:"fl"` // the real writer is an http.Flusher
+	Fl     bool    `json:"fl"`     // the real writer is an http.Flusher
+	PShape string  `json:"pshape"` // shape of the caller's context (ctxshape.go)
 	// server cases only
 	Group    int         `json:"group"`
 	Route    int         `json:"route"`
@@ -405,13 +406,10 @@ func runSeqCore(c SeqCase, build func(work http.HandlerFunc) (http.Handler, func
 	for i, in := range c.Reqs {
 		q := &seqReq{in: in, gate: make(chan hcmd), acks: make(chan hack, len(in.Script)+4),
 			sRet: make(chan struct{}), hStarted: make(chan struct{})}
-		base := context.Background()
-		if in.ParentNs != nil {
-			var cdl context.CancelFunc
-			base, cdl = context.WithDeadline(base, tA.Add(time.Duration(*in.ParentNs)))
-			defer cdl()
-		}
-		q.parent, q.cancel = context.WithCancel(base)
+		var cancelShape, releaseShape func()
+		q.parent, cancelShape, releaseShape = mkParent(in.PShape, tA, in.ParentNs)
+		q.cancel = context.CancelFunc(cancelShape)
+		defer releaseShape()
 		defer q.cancel()
 		q.rw = newRecw(in.H0, &q.sret)
 		reqs[i] = q
